@@ -119,9 +119,83 @@ def manifest(case):
         shutil.rmtree(tmp, ignore_errors=True)
 
 
+SOURCE_TMPL = '''from forml import project
+from forml.io import dsl
+
+
+class T{marker}(dsl.Schema):
+    x = dsl.Field(dsl.Integer())
+
+
+project.setup(project.Source.query(T{marker}.select(T{marker}.x)))
+'''
+PIPELINE_TMPL = '''from forml import project
+from forml.pipeline import wrap
+
+
+@wrap.Operator.mapper
+@wrap.Actor.apply
+def op{marker}(x):
+    return x
+
+
+project.setup(op{marker}())
+'''
+
+
+def install(case):
+    """Write a project package (directory or zip) whose manifest maps the components as the case says, install it, load it."""
+    import sys
+
+    tmp = pathlib.Path(tempfile.mkdtemp(prefix='c18i_', dir='/var/tmp'))
+    before = set(sys.modules)
+    try:
+        root = tmp / 'src'
+        pkgdir = root.joinpath(*case['package'].split('.'))
+        pkgdir.mkdir(parents=True)
+        level = root
+        for part in case['package'].split('.'):
+            level = level / part
+            (level / '__init__.py').write_text('')
+        modules = {}
+        for component, tmpl in (('source', SOURCE_TMPL), ('pipeline', PIPELINE_TMPL)):
+            rel = case['where'][component]            # module path relative to the package, e.g. 'source' or 'parts.input'
+            target = pkgdir.joinpath(*rel.split('.'))
+            target.parent.mkdir(parents=True, exist_ok=True)
+            level = pkgdir
+            for part in rel.split('.')[:-1]:
+                level = level / part
+                (level / '__init__.py').write_text('')
+            target.with_suffix('.py').write_text(tmpl.format(marker=case['marker']))
+            style = case['style'][component]
+            if style == 'relative':
+                modules[component] = rel
+            elif style == 'absolute':
+                modules[component] = f"{case['package']}.{rel}"
+            # 'default': not listed - only legal when rel == component
+        manifest_obj = project.Manifest(case['name'], case['version'], case['package'], **modules)
+        if case['zip']:
+            package = project.Package.create(root, manifest_obj, tmp / 'pkg.4ml')
+        else:
+            manifest_obj.write(root)
+            package = project.Package(root)
+        artifact = package.install(tmp / 'installed')
+        components = artifact.components
+        return {
+            'source': repr(components.source.extract.train),
+            'pipeline': repr(components.pipeline),
+            'manifest_equal': package.manifest == project.Manifest(case['name'], case['version'], case['package'], **modules),
+        }
+    finally:
+        for name in set(sys.modules) - before:
+            if name.split('.')[0] == case['package'].split('.')[0]:
+                sys.modules.pop(name, None)
+        shutil.rmtree(tmp, ignore_errors=True)
+
+
 def observe(case):
     try:
         return {'tag': tag, 'genkey': genkey, 'versions': versions, 'genlisting': genlisting, 'rellisting': rellisting,
-                'manifest': manifest}[case['t']](case)
+                'manifest': manifest, 'install': install}[case['t']](case)
     except Exception as err:  # pylint: disable=broad-except
         return {'error': f'{type(err).__name__}: {err}'}
